@@ -120,6 +120,28 @@ def index_exact(tree, w, extra_ids=(), extra_data=(), calc=None):
             if (f is None) != (not grp) or (f is not None and not any(f is g for g in grp)):
                 out.append(("find_first(data_id)", {"id": repr(did), "got": nm(f) if f is not None else None}))
                 return out
+            # the same lookup started on a node: the invisible system root (= the whole tree) and every top node
+            sr = tree.system_root
+            got = sr.find_all(data_id=did)
+            if not same_set(list(got), grp):
+                out.append(("system_root.find_all(data_id)", {"id": repr(did), "got": [nm(x) for x in got], "scan": [nm(x) for x in grp]}))
+                return out
+            f = sr.find_first(data_id=did)
+            if (f is None) != (not grp) or (f is not None and not any(f is g for g in grp)):
+                out.append(("system_root.find_first(data_id)", {"id": repr(did), "got": nm(f) if f is not None else None}))
+                return out
+            for t in w.kids[id(None)]:
+                below = {id(t)}
+                stack = [t]
+                while stack:
+                    x = stack.pop()
+                    for c in w.kids[id(x)]:
+                        below.add(id(c))
+                        stack.append(c)
+                got = t.find_all(data_id=did, add_self=True)
+                if not same_set(list(got), [g for g in grp if id(g) in below]):
+                    out.append(("node.find_all(data_id,add_self)", {"id": repr(did), "start": nm(t), "got": [nm(x) for x in got]}))
+                    return out
         except Exception as e:  # noqa: BLE001
             out.append(("lookup-raises", [repr(did), repr(e)]))
             return out
